@@ -144,7 +144,7 @@ def run(ctx, out, replay=None):
                 "other), 10% with one injected defect (verdict correspondence); plus the catalogue of all near misses on a "
                 "document with every module kind and documents of 9..257 (1001) modules, 9..65 (257) members, 33..101 (1001) "
                 "nets, 9..65 (161) rectangles, names of 32..4097 (8193) characters, 9..33 (101) regions; half of the new "
-                "streams given as the tree, as hand-spelled YAML text (1e3, +2, .5, 0x1F, quoted names) or as a file name, "
+                "streams given as the tree, as hand-spelled YAML text (1e3, +2, .5, 0x1F, quoted names), as a file name or as an open text stream, "
                 "15% after other loads / writes in the same process, 8% with the source loaded twice; each is loaded, "
                 "written (twice), reloaded and written again; non-trivial = at least two modules and a net or two "
                 "rectangles; distinct by hash")
